@@ -5,6 +5,7 @@ from ..cfg import Cfg, reach
 from ..common import body_by_name, callee_names
 from ..facts import callee, op_const, op_local, op_place
 from ..flow import Flow, identity_through
+from ..inline import inlined, same_impl_helpers
 
 CONFIGS_QUICK = ["K1", "K2"]
 CONFIGS_THOROUGH = ["K1", "K2"]
@@ -24,13 +25,18 @@ def self_aliases(body):
     fl = Flow(body)
     derived, _ = fl.forward([1])
     out = {1}
-    for bb, i, s in body.stmts():
-        if s["k"] == "assign" and not s["place"]["p"] and s["place"]["l"] in derived:
-            rv = s["rv"]
-            if rv["k"] == "ref" and rv["place"]["l"] in out and rv["place"]["p"] == ["*"]:
-                out.add(s["place"]["l"])
-            if rv["k"] == "use" and op_local(rv["op"]) in out:
-                out.add(s["place"]["l"])
+    changed = True
+    while changed:
+        changed = False
+        for bb, i, s in body.stmts():
+            if s["k"] == "assign" and not s["place"]["p"] and s["place"]["l"] in derived and s["place"]["l"] not in out:
+                rv = s["rv"]
+                if rv["k"] == "ref" and rv["place"]["l"] in out and rv["place"]["p"] == ["*"]:
+                    out.add(s["place"]["l"])
+                    changed = True
+                elif rv["k"] == "use" and op_local(rv["op"]) in out and not (op_place(rv["op"]) or {}).get("p"):
+                    out.add(s["place"]["l"])
+                    changed = True
     return out
 
 
@@ -77,6 +83,14 @@ def one(rep, prog, cfg):
             return
     hs, st, isf, fld, into, fin = hs[0], st[0], isf[0], fld[0], into[0], fin[0]
     INTO = norm(into.name)
+    # parts of the per-field handling may be private methods of the builder (e.g. the tag arm, the legacy Time arm, the
+    # "take the finished song" step): analyse the handlers with those spliced in (A12); the handlers themselves and the
+    # conversion into a song stay calls, the rules below look for them
+    keep = {norm(x.name) for x in (hs, st, isf, fld, into, fin)}
+    hs = inlined(prog, hs, same_impl_helpers(hs, exclude=keep))
+    st = inlined(prog, st, same_impl_helpers(st, exclude=keep))
+    if hs.raw.get("inlined") or st.raw.get("inlined"):
+        rep.sample({"C14 helpers spliced (%s)" % cfg: sorted(set(hs.raw.get("inlined", []) + st.raw.get("inlined", [])))})
 
     # ---- C14.fields ------------------------------------------------------------------------
     cmps = tables.str_compares(hs)
